@@ -195,6 +195,7 @@ namespace bloch::runtime {
         std::vector<RuntimeField> instanceFields;
         std::vector<RuntimeField> staticFields;
         std::vector<Value> staticStorage;
+        bool staticInitStarted = false;
         std::unordered_map<std::string, size_t> instanceFieldIndex;
         std::unordered_map<std::string, size_t> staticFieldIndex;
         std::unordered_map<std::string, std::vector<RuntimeMethod>> methods;
@@ -330,6 +331,10 @@ namespace bloch::runtime {
         RuntimeField* findInstanceField(RuntimeClass* cls, const std::string& name);
         RuntimeField* findStaticField(RuntimeClass* cls, const std::string& name);
         void initStaticFields(RuntimeClass* cls);
+        // Static field lookup through the class chain; initialises the owner's statics first if
+        // that has not happened yet, so initialisation order follows use, not declaration order.
+        std::pair<RuntimeField*, RuntimeClass*> staticFieldWithOwner(RuntimeClass* cls,
+                                                                     const std::string& name);
         void ensureGcThread();
         void requestGc();
         void runCycleCollector();
